@@ -179,7 +179,10 @@ static int cif_map_set_item(cif_map_t *map, const UChar *key, cif_value_tp *valu
 
                     if (key_orig != item->key_orig) {
                         assert(map->is_standalone != 0);
-                        free(item->key_orig);
+                        /* an entry whose original key is already normalized holds that one string in both roles */
+                        if (item->key_orig != item->key) {
+                            free(item->key_orig);
+                        }
                         item->key_orig = key_orig;
                     }
 
